@@ -250,7 +250,7 @@ func c15Render(r *rand.Rand, skel *canon.Node) string {
 
 func runC15(c *fw.Ctx) {
 	r := c.Rand("cases")
-	for i := 0; i < c.PerShard(c.Pick(40000, 1500000)); i++ {
+	for i := 0; i < c.PerShard(c.Pick(600000, 15000000)); i++ {
 		nvals := r.Intn(7)
 		vals := map[string]*canon.Node{}
 		var names []string
